@@ -6,6 +6,7 @@ import (
 	"image/color"
 	"math"
 	"sync/atomic"
+	"time"
 
 	"github.com/mandykoh/prism/ciexyz"
 	"github.com/mandykoh/prism/linear"
@@ -237,6 +238,12 @@ func runC04(r *core.Run) {
 		clipStats[name] = [2]int64{clo.Load(), chi.Load()}
 		ntPerPair[name] = nt
 	}
+	if r.Variant == "" {
+		for _, v := range []string{"rev", "encfirst+rev"} {
+			r.RunVariantChild(v, 10*time.Minute, false)
+		}
+		r.Obs("fresh_process_variants", []string{"rev", "encfirst+rev"})
+	}
 	r.Exhaustive = r.Thorough()
 	r.Obs("reference_channels_below0_above1_per_pair", clipStats)
 	r.Obs("distinct_nontrivial_output_pixels_per_pair", ntPerPair)
@@ -269,5 +276,5 @@ func replayC04(stage string, raw json.RawMessage) (bool, string, error) {
 var _ = linear.RGB{}
 
 func init() {
-	core.Register(&core.Property{ID: "C04", Level: "exploration", Run: runC04, Replay: replayC04})
+	core.Register(&core.Property{ID: "C04", Level: "exploration", Run: runC04, Replay: replayC04, Child: variantChild("C04", "exploration", runC04)})
 }
